@@ -8,5 +8,6 @@ for p in C01 C02 C03 C04 C05 C06 C07 C08 C09 C10 C11 C12 C13 C14 C15 C16 C17 C18
   tail -1 /tmp/allchk_$p.out
   grep -B1 "^VIOLATION" /tmp/allchk_$p.out | grep -v "^VIOLATION\|^--\|^      " | cut -c1-260
   grep "ANALYSIS-ERROR" /tmp/allchk_$p.out | cut -c1-260
+  grep "UNDECIDED" /tmp/allchk_$p.out | cut -c1-200
 done
 rm -f /tmp/allchk_*.out
